@@ -611,6 +611,13 @@ func fuzz(r *rand.Rand, par, n int, only string) {
 		}
 	}
 	if only != "fuzz" {
+		for i, nc := range nameSectionModules() {
+			c := mkCase(fmt.Sprintf("name-section-%d", i), "name-section", []string{"v2", "v2x"}[i%2], nc.bin, nc.note)
+			c.MustAccept = true
+			add(c)
+		}
+	}
+	if only != "fuzz" {
 		// invalid-by-construction modules: must be rejected
 		for i, iv := range invalidByConstruction() {
 			c := mkCase(fmt.Sprintf("invalid-%d", i), "invalid-by-construction", iv.feat, iv.bin, iv.rule)
